@@ -222,6 +222,10 @@ def build(history: list[tuple[str, ...]], spacing: float, hset: int, fails: int,
         L = '_of_the_operator_that_reconciles_the_children_of_the_object'
         handlers = [dict(id='c1' + L, on='create', script=f + ['ok']), dict(id='u1' + L, on='update', script=f + ['ok']),
                     dict(id='u2' + L + '/spec.x', on='update', script=['ok']), dict(id='d1' + L, on='delete', script=f + ['ok'])]
+    if hset == 8:   # a raw-event handler of the kind leaves an (idempotent) note through its patch on every event: from the second event on its
+        # PATCH changes nothing, and the version such a PATCH returns never comes back through the watch
+        handlers = [dict(id='ev', on='event', script=['ok+seen']), dict(id='c1', on='create', script=['ok']),
+                    dict(id='u1', on='update', script=f + ['ok']), dict(id='d1', on='delete', script=['ok'])]
     if hset == 6:   # two deletion handlers (one per cycle under `asap`), the second asking for an immediate retry first
         handlers = [dict(id='c1', on='create', script=['ok']), dict(id='u1', on='update', script=['ok']),
                     dict(id='d1', on='delete', script=['ok']), dict(id='d2', on='delete', script=['temp0'] * fails + ['ok'])]
@@ -255,6 +259,10 @@ def scenarios(tier: str) -> tuple[list[C03Scenario], list[C03Scenario], list[C03
     for h in histories(2):
         for spacing in (20.0, 0.0):
             hist.append(build(h, spacing, 7, 1, delays=False, early_user=False, time_dev=False))
+    for h in histories(2):
+        for spacing in (20.0, 2.0, 1.0, 0.0):     # ... the next edit comes while the operator still waits for that version (5 s), or later
+            for fails in (0, 1):
+                hist.append(build(h, spacing, 8, fails, delays=False, early_user=False, time_dev=False))
     for h in histories(2):
         if any(a[0] == 'delete' for a in h):
             for spacing in (20.0, 0.0):
